@@ -193,6 +193,48 @@ def part_compose_real(ctx):
                                              "only_alone": [v for v in alone if v not in mine], "collect": c["collect"]})
 
 
+def part_many_files(ctx):
+    """the same composition predicate for runs of many files (more files than any fixed number of workers) under
+    GOMAXPROCS 1, 2 and 16: every file of the batch gets exactly the violations it gets alone, none is left out"""
+    import os
+    sizes = [5, 9, 17, 33, 65, 70] if ctx.quick else [3, 4, 5, 6, 7, 9, 13, 17, 31, 33, 64, 65, 70, 129, 200]
+    for procs in ("1", "2", "16"):
+        cases = []
+        for n in sizes:
+            files = [{"name": "d%d/f%d.rego" % (i % 3, i), "content": "package f%d\n\n# TODO: %d\nx%d := %d\n" % (i, i, i, i)} for i in range(n)]
+            base = {"op": "kernel.lint", "files": files, "user": None, "prefix": "", "collect": False, "export": False,
+                    "enabled": False, "all": True, "noCustom": True,
+                    "params": {"disable": [], "enable": ["todo-comment"], "disableCategory": [], "enableCategory": [],
+                               "disableAll": True, "enableAll": False, "ignoreFiles": []}}
+            cases.append(dict(base, id=len(cases), _n=n, _k="batch"))
+            for f in (files[0], files[n // 2], files[-1]):
+                cases.append(dict(base, id=len(cases), files=[f], _n=n, _k="single"))
+        res = ctx.impl(cases, env=dict(os.environ, GOMAXPROCS=procs), procs=3)
+        batch = {}
+        for c in cases:
+            o = res[c["id"]].get("out") or {}
+            if "error" in o or not o:
+                ctx.brk("many-file run could not be linted (harness)", {"n": c["_n"], "GOMAXPROCS": procs}, res[c["id"]], None)
+                continue
+            vs = [v for v in o.get("violations") or [] if not v[5]]
+            ctx.seen({"n": c["_n"], "k": c["_k"], "procs": procs, "file": c["files"][0]["name"]}, ("many", procs, c["_n"], c["_k"], c["files"][0]["name"]))
+            if c["_k"] == "batch":
+                batch[c["_n"]] = vs
+                ctx.count("many-files n=%d GOMAXPROCS=%s" % (c["_n"], procs))
+                files_with = {v[3] for v in vs}
+                missing = [f["name"] for f in c["files"] if f["name"] not in files_with]
+                if o["summary"]["filesScanned"] != c["_n"] or missing:
+                    ctx.fail("files of a large batch were scanned but not evaluated (no violations although each file has one "
+                             "when linted alone)", {"n": c["_n"], "GOMAXPROCS": procs}, None,
+                             {"filesScanned": o["summary"]["filesScanned"], "files_without_verdict": missing[:8], "count": len(missing)})
+            else:
+                name = c["files"][0]["name"]
+                mine = sorted([v for v in batch.get(c["_n"], []) if v[3] == name], key=str)
+                if mine != sorted(vs, key=str):
+                    ctx.fail("a file's single-file violations differ between a large batch and linting it alone",
+                             {"n": c["_n"], "GOMAXPROCS": procs, "file": name}, None, {"batch": mine, "alone": vs})
+
+
 def _ignored_count(c, io):
     return 0
 
@@ -201,3 +243,4 @@ def run(ctx):
     part_walk(ctx)
     part_compose(ctx)
     part_compose_real(ctx)
+    part_many_files(ctx)
